@@ -64,7 +64,9 @@ func decodeDoc(reader string, v *schema.V, vr docVariant) (dec reflect.Value, do
 			doc = refror2.Encode(v, refror2.Header, vr.ror2)
 			r, e = restlicodec.NewRor2Reader(doc)
 		case "query":
-			doc = "p=" + refror2.Encode(v, refror2.Query, vr.ror2)
+			// the record is parameter p of a request that also carries parameter z and lacks the
+			// required parameter q2: one error must name q2 together with what is missing inside p
+			doc = "p=" + refror2.Encode(v, refror2.Query, vr.ror2) + "&z=5"
 			q, e2 := restlicodec.ParseQueryParams(doc)
 			if e2 != nil {
 				return e2
@@ -72,9 +74,13 @@ func decodeDoc(reader string, v *schema.V, vr docVariant) (dec reflect.Value, do
 			rt := Reg[v.T.Name]
 			ptr := reflect.New(rt)
 			dec = ptr
-			return queryReadRecord(q, []string{"p"}, func(rd restlicodec.Reader, field string) error {
-				if field == "p" {
+			return queryReadRecord(q, []string{"p", "q2", "z"}, func(rd restlicodec.Reader, field string) error {
+				switch field {
+				case "p":
 					return ptr.Interface().(restlicodec.Unmarshaler).UnmarshalRestLi(rd)
+				case "z":
+					_, e := rd.ReadInt32()
+					return e
 				}
 				return rd.Skip()
 			})
@@ -181,6 +187,7 @@ func checkRequired(rich *schema.V, deleted, nulled []schema.Pos, reader string, 
 		for i := range want {
 			want[i] = "p." + want[i]
 		}
+		want = append(want, "q2")
 	}
 	sort.Strings(want)
 	// the value the present fields denote (nulls are absent)
